@@ -145,11 +145,12 @@ def judgeErr (g : MGraph) (s : Nat) : Option String :=
   | some false => some "NegativeCycle reported but no negative cycle is reachable from the source"
   | none => some "judge inconclusive (reference search produced no checkable certificate)"
 
-/-- classification of a `find_negative_cycle` answer -/
+/-- verdict on a `find_negative_cycle` answer (the former third verdict `d15` — "KNOWN D15" for the
+answer `Some([source])` — is gone: D15 is repaired in /repo, a returned sequence is judged by
+`checkNegClosedWalk` and by nothing else) -/
 inductive FncVerdict where
   | ok
   | fail (why : String)
-  | d15 (why : String)
 
 /-- `find_negative_cycle`: `ans` = returned sequence, `bfErr` = bellman_ford erred on the same input -/
 def judgeFnc (g : MGraph) (s : Nat) (ans : Option (List Nat)) (bfErr : Bool) : FncVerdict :=
@@ -165,8 +166,6 @@ def judgeFnc (g : MGraph) (s : Nat) (ans : Option (List Nat)) (bfErr : Bool) : F
       if !neg then .fail "Some although no negative cycle is reachable from the source"
       else if !bfErr then .fail "Some although bellman_ford returns Ok"
       else if checkNegClosedWalk g seq then .ok
-      else if seq == [s] then
-        .d15 "the returned sequence is the source alone, which is not a closed walk of negative cost (predecessor chain reached the source)"
       else .fail "the returned sequence is not a closed walk of negative cost"
 
 /-- all-pairs answers: `entry u v` = finite distance (`none` = `max()`) -/
